@@ -3,7 +3,6 @@
 package props
 
 import (
-	"bytes"
 	"fmt"
 	"math/big"
 
@@ -92,6 +91,10 @@ func c09Generate(c *mon.Ctx) {
 
 	for d := int64(1); d <= 4; d++ {
 		emit(new(big.Int).Sub(two384, big.NewInt(d)), "max384")
+	}
+
+	for _, b := range gen.WideResonant(n) {
+		emit(new(big.Int).SetBytes(b), "fold-resonant")
 	}
 
 	for _, v := range gen.Raw256(n) {
@@ -263,9 +266,7 @@ func c09Run(c *mon.Ctx, csAny any) {
 
 		want := oracle.HashToScalar(msg, dst)
 		if got := mon.ScalVal(s); got.Cmp(want) != 0 || !mon.ScalCanonical(s) {
-			xm := secp256k1.VExpandXMD(append([]byte{}, msg...), append([]byte{}, dst...), 48)
-			c.Fail(fmt.Sprintf("HashToScalar(msg[%d], dst[%d]) = %x, want %x", len(msg), len(dst), got, want), "h2s-value",
-				map[string]any{"expand_message_xmd_matches": bytes.Equal(xm, oracle.XMD(msg, dst, 48))})
+			c.Fail(fmt.Sprintf("HashToScalar(msg[%d], dst[%d]) = %x, want %x", len(msg), len(dst), got, want), "h2s-value", nil)
 
 			return
 		}
